@@ -655,9 +655,17 @@ func (in *Interp) iterate(v Value) (keys, vals []Value) {
 		if x > 4000 {
 			in.cost(4001)
 		}
+		if x < -4000 {
+			in.cost(4001)
+		}
 		for i := int64(0); i < x; i++ {
 			keys = append(keys, i)
 			vals = append(vals, i)
+		}
+		// a negative int yields |x| entries: positions 0, 1, 2, … with values 0, -1, -2, …
+		for i := int64(0); i < -x; i++ {
+			keys = append(keys, i)
+			vals = append(vals, -i)
 		}
 	case *Map:
 		ks := make([]string, 0, len(x.M))
